@@ -201,3 +201,47 @@ def c16(ctx):
     judge(ctx, "C16", vf.cat(ctx.path("vec.ndjson"), g1, r), what="CheckDebsig vs ideal signature", chunk=500)
     ctx.assumptions += ["OpenPGP signing/verification by golang.org/x/crypto/openpgp is ground truth; signatures are "
                         "modelled as ideal (key, signed member list) in the specification"]
+
+
+# =========================================================================== dependency (C04-C06)
+@prop("C04", "C04Trace",
+      "TLC renders every dependency model of the bounded domain (2 names x 3 qualifiers x 6 version forms x 4 arch lists "
+      "x 4 profile forms + substvars, and 2-/3-relation combinations of a representative subset) in four spacing styles "
+      "(minimal, canonical, wide with tabs/newlines, folded as a control field delivers it) and several clause orders; "
+      "plus seeded single-byte delete/duplicate/delimiter-substitute corruptions of those, each classified by the reference "
+      "parser as accept(AST) / reject / unspecified.")
+def c04(ctx):
+    t = ctx.tier
+    mc(ctx, "DepLaws.tla", "DepLaws_%s.cfg" % t, what="RefParse(Render(model)) = model; arch names bijective")
+    g1 = gen(ctx, "DepGen.tla", "DepGen_dep_%s.cfg" % t, ctx.path("dep.ndjson"), what="rendered dependency models")
+    r = hgen(ctx, "C04", ctx.path("rand.ndjson"), base=g1)
+    judge(ctx, "C04", vf.cat(ctx.path("vec.ndjson"), g1, r), what="Parse vs reference parser")
+    ctx.exhaustive = True
+
+
+@prop("C05", "C04Trace",
+      "Every accepted input of the C04 domain, seeded mutations and raw byte strings are rendered with String()/"
+      "MarshalControl and re-parsed by the real parser and by the reference parser; all 584 architecture names "
+      "built from {any, all, linux, kfreebsd, gnu, musl, amd64, i386} in 1-, 2- and 3-part form plus real names.")
+def c05(ctx):
+    t = ctx.tier
+    mc(ctx, "DepLaws.tla", "DepLaws_%s.cfg" % t, what="reference renderer/parser consistent")
+    g1 = gen(ctx, "DepGen.tla", "DepGen_deprt_%s.cfg" % t, ctx.path("dep.ndjson"), what="rendered dependency models")
+    g2 = gen(ctx, "DepGen.tla", "DepGen_arch.cfg", ctx.path("arch.ndjson"), what="architecture names")
+    r = hgen(ctx, "C05", ctx.path("rand.ndjson"), base=g1)
+    judge(ctx, "C05", vf.cat(ctx.path("vec.ndjson"), g1, g2, r), what="render / re-parse fixpoint")
+    ctx.exhaustive = True
+
+
+@prop("C06", "C04Trace",
+      "Exactly the property's domain: 'all' plus {any,x,y,z}^3 = 65 architectures, all 4225 ordered pairs (built as "
+      "structs and through ParseArch of their canonical names), all lists of <=1 entry and 2-entry lists x negation x 28 "
+      "non-wildcard targets, all dependency shapes of <=2 relations x <=N alternatives of kinds {empty list, positive, "
+      "negated, substvar} x 2 targets (as structs and through Parse), all (op, N, V) over 9 operators x 15 N x 10 V.")
+def c06(ctx):
+    t = ctx.tier
+    mc(ctx, "DepLaws.tla", "DepLaws_quick.cfg", what="Match symmetric where pinned; arch names bijective")
+    g1 = gen(ctx, "DepGen.tla", "DepGen_c06_%s.cfg" % t, ctx.path("c06.ndjson"), what="pairs, lists, selections, constraints")
+    r = hgen(ctx, "C06", ctx.path("rand.ndjson"))
+    judge(ctx, "C06", vf.cat(ctx.path("vec.ndjson"), g1, r), what="Is / Matches / GetPossibilities / SatisfiedBy")
+    ctx.exhaustive = True
